@@ -701,7 +701,7 @@ func (g *c20Gen) tree() *c20Tree {
 			t.dirs = append(t.dirs, d)
 		}
 	}
-	goNames := []string{"a.go", "b.go", "bootstrap.go", "panic.go", "test.go", "contest.go", "x_test_amd64.go", "my_testing.go", "z9.go", "test_.go", "UPPER.go"}
+	goNames := []string{"a.go", "b.go", "bootstrap.go", "panic.go", "test.go", "contest.go", "x_test_amd64.go", "my_testing.go", "z9.go", "test_.go", "UPPER.go", "Self_Test.go", "x_TEST.go", "k_test.Go.go"}
 	testNames := []string{"a_test.go", "bootstrap_test.go", "export_test.go", "x_amd64_test.go"}
 	otherNames := []string{"old.go.bak", "gen.go.tmpl", "rt0.s", "notes.txt", "go", "x.goo", "Makefile", "y.GO", "_notes.txt", "testdata", "_", ".hidden", "vendor", "_obj.txt"} // plain files, whatever their names mean to the go tool as directory names
 	sparse := r.Chance(1, 6) // trees with very few annotations (including none)
